@@ -13,17 +13,54 @@ VERBS = re.compile(r"^(resize|rebuild|compress|compact|grow|purge|shrink|flush|m
 FLIP = {"<": ">", ">": "<", "<=": ">=", ">=": "<=", "==": "==", "!=": "!="}
 
 
-def parts(c):
-    """(oriented operator, identifiers, constants) of a comparison; orientation: lexicographically smaller side on the left"""
+def canon_env(fn):
+    """rename-invariant identities for the locals and parameters of fn: a local with an initialiser is identified by the text of
+    that initialiser (other locals inlined), one without by its type and its ordinal among such locals; parameters by position"""
+    env = {}
+    decls = {}
+    order = []
+
+    def v(n):
+        if n.get("k") == "Decl":
+            for x in n.get("vars", []):
+                if "d" in x:
+                    decls[x["d"]] = x
+                    order.append(x)
+    walk(fn.get("body"), v)
+    inl = {d: x["init"] for d, x in decls.items() if x.get("init") is not None}
+    cnt = {}
+    for x in order:
+        if x.get("init") is not None:
+            env[x["d"]] = "=" + txt(x["init"], inl).replace(" ", "")[:80]
+        else:
+            t = (x.get("t") or "").replace("const ", "")
+            cnt[t] = cnt.get(t, 0) + 1
+            env[x["d"]] = "local<%s>#%d" % (t, cnt[t])
+    for i, pm in enumerate(fn.get("params", [])):
+        env[pm["d"]] = "param#%d" % i
+    return env
+
+
+def parts(c, env=None):
+    """(oriented operator, identifiers, constants) of a comparison; orientation: lexicographically smaller side on the left.
+    With env (see canon_env) locals and parameters are named by their rename-invariant identity."""
+    env = env or {}
+
+    def ctext(e):
+        ids = []
+        walk(e, lambda n: ids.append(env.get(n.get("d"), n.get("n") or "")) if n.get("k") == "Ref" else (ids.append(n.get("f")) if n.get("k") == "Member" else (ids.append(n.get("cname")) if n.get("k") == "Call" else None)))
+        return "|".join(str(x) for x in ids) + "#" + re.sub(r"[A-Za-z_][A-Za-z_0-9]*", "", txt(e))
     l, r = txt(c["l"]), txt(c["r"])
     op = c["op"]
-    if l > r:
+    if ctext(c["l"]) > ctext(c["r"]):
         l, r, op = r, l, FLIP[op]
     ids, consts = [], []
 
     def v(n):
         k = n.get("k")
-        if k in ("Ref", "Member") and "v" not in n:
+        if k == "Ref" and "v" not in n:
+            ids.append(env.get(n.get("d"), n.get("n")))
+        elif k == "Member" and "v" not in n:
             ids.append(n.get("n") or n.get("f"))
         elif k == "Call":
             ids.append(n.get("cname"))
@@ -40,6 +77,7 @@ def inventory(facts):
         if not fn.get("rect"):
             continue
         cnt = {}
+        env = canon_env(fn)
 
         def v(n):
             if n.get("k") in ("If", "While"):
@@ -51,7 +89,7 @@ def inventory(facts):
                     base = "%s::%s->%s" % (short(fn["rect"]), fn["name"], "+".join(sorted(set(calls))))
                     i = cnt.get(base, 0)
                     cnt[base] = i + 1
-                    op, ids, consts, text = parts(c)
+                    op, ids, consts, text = parts(c, env)
                     rows["%s#%d" % (base, i)] = {"op": op, "ids": ids, "consts": consts, "text": text, "loc": n.get("loc"), "fn": fn["qname"]}
         walk(fn["body"], v)
     return rows
